@@ -38,6 +38,81 @@ def type_of(var):
     return ("scal", typ.__name__, cls.__count__)
 
 
+# one container decodes every message of a run, and what it returned is read only after ALL messages have been decoded: a decoded function
+# object belongs to its message, later messages of the same stream/function must not change it
+SHARED = StreamsFunctions()
+DEFERRED = []
+
+
+def first_leaf(var):
+    """the first scalar variable reachable through the members of a function's data"""
+    if isinstance(var, V.Dynamic):
+        return first_leaf(var.value) if var.value is not None else None
+    if isinstance(var, V.List):
+        for k in var.data:
+            leaf = first_leaf(var.data[k])
+            if leaf is not None:
+                return leaf
+        return None
+    if isinstance(var, V.Array):
+        for item in var.data:
+            leaf = first_leaf(item)
+            if leaf is not None:
+                return leaf
+        return None
+    return var
+
+
+def edit_leaf(leaf):
+    """change the variable through itself (not through the function object that holds it); False if nothing could be changed"""
+    old = leaf.get()
+    for new in ((b"\x02",) if isinstance(leaf, V.Binary) else (True, False) if isinstance(leaf, V.Boolean) else ("e", "") if isinstance(leaf, (V.String, V.JIS8))
+                else (1.0, 0.0) if type(leaf).__name__ in ("F4", "F8") else (1, 0)):
+        try:
+            leaf.set(new)
+        except Exception:  # noqa: BLE001
+            continue
+        if leaf.get() != old:
+            return True
+    return False
+
+
+def observe_edit(cls, p):
+    """construct, encode once, change a nested variable through the variable, encode again: the second body is the encoding of the
+    value the object holds then"""
+    if p is None:
+        return None
+    try:
+        fn = cls(valrig.to_py(p))
+        fn.encode()
+    except Exception:  # noqa: BLE001
+        return None
+    if not isinstance(fn.data, (V.List, V.Array)):
+        return None              # a single item: there is no nested variable
+    leaf = first_leaf(fn.data)
+    if leaf is None or leaf is fn.data or not edit_leaf(leaf):
+        return None
+    out = {"ok": True, "val": valrig.snapshot(fn.data), "get": fn.get(), "enc": None, "dec": None, "err": None, "edited": True}
+    try:
+        out["enc"] = fn.encode()
+        msg = types.SimpleNamespace(header=types.SimpleNamespace(stream=cls._stream, function=cls._function), data=out["enc"])
+        DEFERRED.append((out, SHARED.decode(msg)))
+    except valrig.Unobservable:
+        raise
+    except Exception as exc:  # noqa: BLE001
+        out["err"] = f"edit: {type(exc).__name__}: {exc}"[:200]
+    return out
+
+
+def read_deferred():
+    for out, back in DEFERRED:
+        try:
+            out["dec"] = (type(back).__name__, valrig.snapshot(back.data) if back.data is not None else "VNone")
+        except valrig.Unobservable:
+            out["unobservable"] = True
+    del DEFERRED[:]
+
+
 def observe(cls, p):
     out = {"ok": False, "val": "VNone", "get": None, "enc": None, "dec": None, "err": None}
     try:
@@ -56,8 +131,7 @@ def observe(cls, p):
     out["enc"] = enc
     try:
         msg = types.SimpleNamespace(header=types.SimpleNamespace(stream=cls._stream, function=cls._function), data=enc)
-        back = StreamsFunctions().decode(msg)
-        out["dec"] = (type(back).__name__, valrig.snapshot(back.data) if back.data is not None else "VNone")
+        DEFERRED.append((out, SHARED.decode(msg)))
     except valrig.Unobservable:
         raise
     except Exception as exc:  # noqa: BLE001
@@ -68,8 +142,9 @@ def observe(cls, p):
 def literal(cls, p, o):
     def dec(d):
         return f"({L.string(d[0])}, {d[1]})"
-    return "{| fo_s := %d; fo_f := %d; fo_in := %s; fo_ok := %s; fo_val := %s; fo_get := %s; fo_enc := %s; fo_dec := %s |}" % (
-        cls._stream, cls._function, L.plain(p), L.bool_(o["ok"]), o["val"], L.plain(o["get"]) if o["ok"] else "PNone", L.opt(o["enc"], L.nlist), L.opt(o["dec"], dec))
+    return "{| fo_s := %d; fo_f := %d; fo_in := %s; fo_ok := %s; fo_val := %s; fo_get := %s; fo_enc := %s; fo_dec := %s; fo_edited := %s |}" % (
+        cls._stream, cls._function, L.plain(p), L.bool_(o["ok"]), o["val"], L.plain(o["get"]) if o["ok"] else "PNone", L.opt(o["enc"], L.nlist), L.opt(o["dec"], dec),
+        L.bool_(bool(o.get("edited"))))
 
 
 def gen_cases(rnd, tier):
@@ -91,6 +166,9 @@ def gen_cases(rnd, tier):
             elif k == 2:
                 n = rnd.choice([5, 17, 300 if tier == "thorough" else 40])
             cases.append((cls, c01.rand_value(t, rnd, n=n) if t[0] == "arr" else c01.rand_value(t, rnd)))
+            if k in (1, 4):
+                # the same kind of value, encoded once, then changed through one of its nested variables and encoded again
+                cases.append((cls, ("EDIT", c01.rand_value(t, rnd, n=2) if t[0] == "arr" else c01.rand_value(t, rnd))))
     return cases
 
 
@@ -98,16 +176,22 @@ HEADER = "From SG Require Import Base.Prelude Base.Kinds Model.Secs2 Run.C01Run 
 
 
 def evaluate(cases, prefix, shard=300):
-    obs = []
+    raw = []
     for cls, p in cases:
         if valrig.has_nan(p):
-            obs.append(None)
+            raw.append(None)
             continue
         try:
-            o = observe(cls, p)
-            obs.append((o, literal(cls, p, o)))
+            raw.append(observe(cls, p) if not (isinstance(p, tuple) and len(p) == 2 and p[0] == "EDIT") else observe_edit(cls, p[1]))
         except valrig.Unobservable:
+            raw.append(None)
+    read_deferred()          # every message has been decoded: now look at what each decode returned
+    obs = []
+    for (cls, p), o in zip(cases, raw):
+        if o is None or o.get("unobservable"):
             obs.append(None)
+        else:
+            obs.append((o, literal(cls, p[1] if o.get("edited") else p, o)))
     idx = [i for i, x in enumerate(obs) if x is not None]
     shards, maps = [], []
     for s in range(0, len(idx), shard):
